@@ -418,29 +418,42 @@ def noLossyB (cfg : Cfg) (es gs : List Tn) : Bool := noLossyFrom cfg 0 es gs
 
 /-! ### the x64 flag: `_temporary_x64` / `_force_jax_x64` as programs over one global flag -/
 
+/-- how a piece of code is left: normally, by an `Exception`, or by a `BaseException` that is NOT an
+    `Exception` (KeyboardInterrupt, SystemExit, GeneratorExit, pytest's outcome exceptions …) -/
+inductive Exit where
+  | normal
+  | exc
+  | base
+  deriving DecidableEq, Repr
+
 /-- A program over the global flag: `set b` = any code that calls
-    `jax.config.update("jax_enable_x64", b)`, `raise` = any exception, `tmp en body` =
-    `with _temporary_x64(en): body`, `force en body` = `with _force_jax_x64(en): body`. -/
+    `jax.config.update("jax_enable_x64", b)`, `raise` = any `Exception`, `raiseBase` = any
+    `BaseException` outside `Exception`, `tmp en body` = `with _temporary_x64(en): body`,
+    `force en body` = `with _force_jax_x64(en): body`, `catch body` = `try: body except Exception: …`
+    (what `_run_allclose` puts around `fn(*args)`; it does NOT stop a `raiseBase`). -/
 inductive XP where
   | skip
   | set (b : Bool)
   | raise
+  | raiseBase
   | seq (a b : XP)
   | tmp (en : Bool) (body : XP)
   | force (en : Bool) (body : XP)
   | catch (body : XP)            -- try: body except Exception: pass
   deriving Repr
 
-/-- (flag, raised) after running the program from `flag`. -/
-def xrun : XP → Bool → Bool × Bool
-  | .skip, f => (f, false)
-  | .set b, _ => (b, false)
-  | .raise, f => (f, true)
+/-- (flag, exit) after running the program from `flag`. -/
+def xrun : XP → Bool → Bool × Exit
+  | .skip, f => (f, .normal)
+  | .set b, _ => (b, .normal)
+  | .raise, f => (f, .exc)
+  | .raiseBase, f => (f, .base)
   | .seq a b, f =>
     let r := xrun a f
-    if r.2 then r else xrun b r.1
+    if r.2 = .normal then xrun b r.1 else r
   | .tmp en body, f =>
     -- prev = flag; try: if en != prev: update(en); yield; finally: if flag != prev: update(prev)
+    -- (`finally` runs for EVERY exit of the block)
     let prev := f
     let f1 := if en != prev then en else f
     let r := xrun body f1
@@ -452,6 +465,98 @@ def xrun : XP → Bool → Bool × Bool
     let f1 := if prev != en then en else f
     let r := xrun body f1
     ((if prev != en then prev else r.1), r.2)
-  | .catch body, f => ((xrun body f).1, false)
+  | .catch body, f =>
+    let r := xrun body f
+    (r.1, if r.2 = .exc then .normal else r.2)
+
+/-- COUNTER-MODEL (not the code): a `_temporary_x64` that restores on the normal path and in an
+    `except Exception:` clause only.  Props/C18.lean proves it is not restoring. -/
+def tmpExcOnly (en : Bool) (body : XP) (f : Bool) : Bool × Exit :=
+  let f1 := if en != f then en else f
+  let r := xrun body f1
+  if r.2 = .base then r else ((if r.1 != f then f else r.1), r.2)
+
+/-- replace the `n`-th atomic step (pre-order: skip / set / raise / raiseBase) of a program by
+    `inj; step` (an interrupt arriving right before that step); `none` = already injected -/
+def injectAt (inj : XP) : XP → Option Nat → XP × Option Nat
+  | .seq a b, n =>
+    let ra := injectAt inj a n
+    let rb := injectAt inj b ra.2
+    (.seq ra.1 rb.1, rb.2)
+  | .tmp en b, n => let r := injectAt inj b n; (.tmp en r.1, r.2)
+  | .force en b, n => let r := injectAt inj b n; (.force en r.1, r.2)
+  | .catch b, n => let r := injectAt inj b n; (.catch r.1, r.2)
+  | p, some 0 => (.seq inj p, none)
+  | p, some (n + 1) => (p, some n)
+  | p, none => (p, none)
+
+/-! ### feed construction: `_build_ort_inputs` / `_to_numpy_input` -/
+
+/-- one graph input as ONNX Runtime reports it: name and the numpy dtype `_to_numpy_input` maps
+    the declared tensor type to (`none` = a type outside its table: value passed through as is) -/
+structure InMeta where
+  name : String
+  kind : Option Kind
+  deriving Repr
+
+inductive FeedErr where
+  | tooFew (name : String)      -- ValueError "Not enough positional inputs"
+  | tooMany                      -- ValueError "Too many positional inputs"
+  | undefinedCast (name : String)  -- C-undefined float→int cast: outside the model
+  | complexPack (name : String)    -- complex value for a real input: (re, im) packing, outside the model
+  deriving DecidableEq, Repr
+
+/-- `_to_numpy_input(value, meta)`: `value.astype(declared dtype)` when the dtypes differ -/
+def coerce (name : String) (k : Option Kind) (t : Tn) : Except FeedErr Tn :=
+  match k with
+  | none => .ok t
+  | some k =>
+    if t.kind = k then .ok t
+    else if t.kind.isComplex && k.isRealFloat then .error (.complexPack name)
+    else
+      match castList t.kind k t.vals with
+      | some v => .ok { t with kind := k, vals := v }
+      | none => .error (.undefinedCast name)
+
+def lookup (params : List (String × Tn)) (n : String) : Option Tn :=
+  match params with
+  | [] => none
+  | (k, v) :: rest => if k = n then some v else lookup rest n
+
+/-- `_build_ort_inputs(session, xs, params)`: walk the graph inputs in order; an input whose name is
+    a key of `params` takes that value, any other input takes the NEXT positional value; too few /
+    left-over positional values raise. -/
+def bindFeeds : List InMeta → List Tn → List (String × Tn) → Except FeedErr (List (String × Tn))
+  | [], [], _ => .ok []
+  | [], _ :: _, _ => .error .tooMany
+  | m :: ms, xs, params =>
+    match lookup params m.name with
+    | some v =>
+      match coerce m.name m.kind v, bindFeeds ms xs params with
+      | .ok c, .ok rest => .ok ((m.name, c) :: rest)
+      | .error e, _ => .error e
+      | _, .error e => .error e
+    | none =>
+      match xs with
+      | [] => .error (.tooFew m.name)
+      | x :: xs' =>
+        match coerce m.name m.kind x, bindFeeds ms xs' params with
+        | .ok c, .ok rest => .ok ((m.name, c) :: rest)
+        | .error e, _ => .error e
+        | _, .error e => .error e
+
+/-- what `fn(*xs, **params)` receives, listed in graph-input order: the value `fn` gets for graph
+    input `m` is `params[m.name]` when that keyword is given, else the next positional argument
+    (this is the binding `to_onnx` established when it exported `fn`).  `none` when the counts differ. -/
+def fnArgs : List InMeta → List Tn → List (String × Tn) → Option (List (String × Tn))
+  | [], [], _ => some []
+  | [], _ :: _, _ => none
+  | m :: ms, xs, params =>
+    match lookup params m.name with
+    | some v => (fnArgs ms xs params).map fun r => (m.name, v) :: r
+    | none =>
+      match xs with
+      | [] => none
+      | x :: xs' => (fnArgs ms xs' params).map fun r => (m.name, x) :: r
 
 end J2O.C18
